@@ -82,6 +82,15 @@ CLAIMED = {
    technique="CrossHair symbolic execution (z3) of the real _worker loop and parallel_add monitor under the synchronous context with symbolic per-item failure flags and a symbolic exit code",
    text="Per item a symbolic flag (callback fine / raises before touching the sketches / raises after updating them, incl. exceptions without arguments): parallel_add still terminates, every item is offered once, all non-failing items' contributions are in the result and n_records counts only successful items. A worker with any non-zero exit status (-15..255, symbolic) makes parallel_add end with an exception instead of returning. Counterexamples replayed with real spawned processes (raising callbacks; a worker that os._exit()s / kills itself).",
    note="Real signals, OOM kills and wall-clock hang detection are outside; the dead-worker guarantee in the pinned code is incidental (a later put on a closed queue raises) and is accepted as 'terminates with an exception'."),
+
+ "C14": dict(engine=K, category="model_checking", design="6 C14 and 7",
+   technique="symbolic execution of Numba typed IR + z3: seed-term distinctness over a symbolic width in every placing kernel; satisfiability witnesses over the real FastHash (QF_BV, precise multiplication)",
+   text="REDUCED CLAIM: the exp(-depth) bound itself is a statement about FastHash's output distribution and is not decided. Decided necessary conditions: (1) in all eight placing kernels (count-min query/add for the three counter types, heavy hitters _add/_max_count) at depth 8 the column of row r is fasthash64(key, s_r) % width with the seed terms pairwise distinct for every width (symbolic) -- e.g. seeding every row identically or mixing the width into the seed is caught; (2) on the real fasthash64 with precise 64-bit multiplication the solver exhibits, for row pairs and widths, 8-byte keys that collide in one row but not the other (unsat would mean functionally dependent rows).",
+   note="Not a statistical independence result. A hash defect that only affects long keys (e.g. a truncated length) is caught by C11, not here."),
+ "C06": dict(engine=K + " + " + W, category="model_checking", design="6 C06",
+   technique="symbolic execution of Numba typed IR + z3 (QF_BV with callee contract; QF_FPBV lemma on _log_counter; NRA real-idealised lemmas with instantiated pow laws; functional arrays for _rand); CrossHair for the class glue",
+   text="Lower bound min(true, num_reserved+1) as an inductive invariant through _add_log16/_add_log8 (all v, symbolic num_reserved, arbitrary tables, _log_counter by contract) and through merges (idealised); _log_counter's contract incl. 'increment iff draw < base**-(c-num_reserved)', one draw per probabilistic step, none in the reserved range (IEEE mode, symbolic counter/num_reserved/base); _counter2value == documented formula and one-step unbiasedness P(advance)*delta == 1 (exact real arithmetic); _rand returns batch[ptr], ptr+1 below 2048 and replaces the whole 2048-entry batch with fresh draws at 2048 (functional array, symbolic pointer); ngram kernels and add()/add_ngram() thread the pointer (no draw reused).",
+   note="Not decided: agreement with the exact Markov-chain distribution, quality of numpy's generator, float rounding of base**x; 'probability of draw < t is t' is the one probabilistic axiom."),
 }
 NA = {}
 ALL = sorted(TITLES)
